@@ -531,6 +531,55 @@ def make_service(tr, sites, calls_holder, body):
     return cls
 
 
+def prelude(kind):
+    """the process has already used another cassette: a recording with non-ascii text saved and read back through it (keys are
+    functions of the call alone, whatever this process stored before)"""
+    if not kind or kind == 'none':
+        return
+    import shutil
+    import tempfile
+    from playback.tape_recorder import TapeRecorder
+    tmp = None
+    try:
+        if kind == 'file':
+            from playback.tape_cassettes.file_based.file_based_tape_cassette import FileBasedTapeCassette
+            tmp = tempfile.mkdtemp(prefix='verif-c06-')
+            cassette = FileBasedTapeCassette(os.path.join(tmp, 'c'))
+        elif kind == 's3':
+            from harness import fake_s3
+            fake_s3.reset()
+            fake_s3.install()
+            from playback.tape_cassettes.s3.s3_tape_cassette import S3TapeCassette
+            cassette = S3TapeCassette('bucket-c06', key_prefix='pre', read_only=False)
+        else:
+            from playback.tape_cassettes.in_memory.in_memory_tape_cassette import InMemoryTapeCassette
+            cassette = InMemoryTapeCassette()
+        tr = TapeRecorder(cassette)
+        tr.enable_recording()
+
+        def fetch(self_, a):
+            return [a, u'r\u00e9sultat \u4e16']
+
+        def execute(self_):
+            return self_.fetch(u'caf\u00e9')
+        Op = type('PreludeOp', (object,), {'fetch': tr.intercept_input('fetch')(fetch), 'execute': tr.operation()(execute)})
+        ids = []
+        real_create = cassette.create_new_recording
+
+        def create(category):
+            r = real_create(category)
+            ids.append(r.id)
+            return r
+        cassette.create_new_recording = create
+        Op().execute()
+        for rid in ids:
+            tr.play(rid, lambda recording: Op().execute())
+        cassette.close()
+    finally:
+        if tmp:
+            shutil.rmtree(tmp, ignore_errors=True)
+
+
 def direct_key(site, args, kwargs):
     from playback.tape_recorder import TapeRecorder, CapturedArg
     capture = None if site['sel'] is None else [CapturedArg(p, n) for p, n in site['sel']]
@@ -576,7 +625,8 @@ class C06(Prop):
     RULE = ('batches of calls on 1-3 interception sites (plain / resolver-formatted / adversarial aliases; capture all, none, '
             'by position, by name; static and instance) built as base calls plus variants (dict and kwargs order shuffled, '
             'excluded arguments changed, captured arguments mutated); every key compared as exact text with the model and '
-            'recomputed under PYTHONHASHSEED 0, 1 and random; record/replay injection cases; codec text cases. A case is '
+            'recomputed in fresh processes under PYTHONHASHSEED 0, 1 and random; 10% of the batches run in a process that has already recorded, saved '
+            'and replayed non-ascii text through a file / S3 / in-memory cassette; record/replay injection cases; codec text cases. A case is '
             'non-trivial when it has at least two calls (batch/replay) or a container value (codec); distinct = distinct '
             'canonical case')
     TRUSTED = ['correspondence harness harness/props/c06.py + Lean driver (Drive/Codec.lean)',
@@ -631,7 +681,10 @@ class C06(Prop):
             for _ in range(rng.randint(1, 3)):
                 calls.append(self.variant(rng, sites, base))
         rng.shuffle(calls)
-        return {'kind': 'batch', 'sites': sites, 'calls': calls[:14]}
+        out = {'kind': 'batch', 'sites': sites, 'calls': calls[:14]}
+        if rng.random() < 0.1:
+            out['prelude'] = rng.choice(['file', 's3', 'memory'])      # this process saved / replayed through a cassette before
+        return out
 
     def gen_deep_batch(self, rng):
         """calls whose captured arguments are nested 9-13 container levels deep: the same value in other insertion orders
@@ -739,6 +792,7 @@ class C06(Prop):
     def run_batch(self, case):
         from playback.tape_recorder import TapeRecorder
         from playback.tape_cassettes.in_memory.in_memory_tape_cassette import InMemoryTapeCassette
+        prelude(case.get('prelude'))
         cassette = InMemoryTapeCassette()
         tr = TapeRecorder(cassette)
         tr.enable_recording()
@@ -767,6 +821,7 @@ class C06(Prop):
     def run_replay(self, case):
         from playback.tape_recorder import TapeRecorder
         from playback.tape_cassettes.in_memory.in_memory_tape_cassette import InMemoryTapeCassette
+        prelude(case.get('prelude'))
         cassette = InMemoryTapeCassette()
         tr = TapeRecorder(cassette)
         tr.enable_recording()
@@ -977,6 +1032,8 @@ class C06(Prop):
             if case.get('deep'):
                 out.append('batch:deep-nesting(9-13 levels)')
             out.append('calls:%d' % len(case['calls']))
+            if case.get('prelude'):
+                out.append('batch:process-used-a-%s-cassette-before' % case['prelude'])
             for c in impl['calls']:
                 out.append('key:error' if c['direct'].startswith('ERR:') else 'key:ok')
             idents = [i for i, _ in impl['idents']]
